@@ -151,7 +151,12 @@ func checkF2(c *fw.Ctx) {
 			}
 			n++
 			cell := t.cell(ver, f)
-			c.Check(cell != "nil" && !strings.HasPrefix(cell, "<unrecognised"), "F2 table-functions", fmt.Sprintf("version %s sets %s", ver, f), t.rowPos[ver], cell, fmt.Sprintf("room version %s leaves %s unset: the wrapper method calls a nil function (panic) for any event of that version", ver, f))
+			if strings.HasPrefix(cell, "<unrecognised") {
+				// an initialiser the evaluator cannot reduce to a function (e.g. a variable built by a call): not nil as far as can be seen
+				c.Undecided("F2 table-functions", fmt.Sprintf("version %s sets %s", ver, f), "the cell is "+cell+": whether it is a non-nil function is not decided")
+				continue
+			}
+			c.Check(cell != "nil", "F2 table-functions", fmt.Sprintf("version %s sets %s", ver, f), t.rowPos[ver], cell, fmt.Sprintf("room version %s leaves %s unset: the wrapper method calls a nil function (panic) for any event of that version", ver, f))
 		}
 	}
 	c.Min("F2 table-functions cells", n, 16*12)
